@@ -133,7 +133,7 @@ func TestVerif_C05(t *testing.T) {
 	defer w.finish()
 	var scs []c05Params
 	if w.thorough() {
-		scs = []c05Params{{1, 1, 4, -1}, {1, 2, 4, -1}, {2, 1, 4, -1}, {1, 3, 4, -1}, {2, 2, 4, -1}, {3, 1, 4, -1}, {3, 2, 8, 3}, {2, 3, 8, 3}}
+		scs = []c05Params{{1, 1, 4, -1}, {1, 2, 4, -1}, {2, 1, 4, -1}, {1, 3, 4, -1}, {2, 2, 4, -1}, {3, 1, 4, 4}, {3, 2, 8, 2}, {2, 3, 8, 2}}
 	} else {
 		scs = []c05Params{{1, 1, 4, -1}, {1, 2, 4, -1}, {2, 1, 4, -1}, {3, 1, 4, 2}, {2, 2, 4, 2}}
 	}
